@@ -798,6 +798,7 @@ func check(c *fw.Ctx, all []kase, nativeSample int) error {
 		k    *kase
 		o    *obs
 		mode string
+		skip bool
 	}
 	var bads []bad
 	var good []*kase
@@ -822,7 +823,7 @@ func check(c *fw.Ctx, all []kase, nativeSample int) error {
 				c.Sample(map[string]any{"tree": k.Tree, "situation": k.Sit, "main_dir": ds(k.Mdir), "main": ms, "files": pk, "expected_log": k.Log, "expected_status": k.Status})
 			}
 			if r.Out == nil || x >= len(os_) {
-				bads = append(bads, bad{k, nil, "harness child " + r.Describe()})
+				bads = append(bads, bad{k: k, mode: "harness child " + r.Describe()})
 				continue
 			}
 			o := &os_[x]
@@ -846,7 +847,7 @@ func check(c *fw.Ctx, all []kase, nativeSample int) error {
 			default:
 				mode = "fs.FS only: " + mM
 			}
-			bads = append(bads, bad{k, o, mode})
+			bads = append(bads, bad{k: k, o: o, mode: mode})
 		}
 	}
 	c.Extra["order_equals_depth_first_log"] = exact
@@ -862,11 +863,11 @@ func check(c *fw.Ctx, all []kase, nativeSample int) error {
 		if !bads[i].k.nativeApplicable() {
 			continue
 		}
-		if dump {
-			s := strings.Join(bads[i].k.triggers(), " + ") + " / " + bads[i].mode
-			if pre[s]++; pre[s] > 3 {
-				continue
-			}
+		// one replay is kept per signature: corroborating the first few of each is enough
+		s := strings.Join(bads[i].k.triggers(), " + ") + " / " + bads[i].mode
+		if pre[s]++; pre[s] > 5 {
+			bads[i].skip = true
+			continue
 		}
 		nj = append(nj, natJob{bads[i].k, i})
 	}
@@ -922,7 +923,7 @@ func check(c *fw.Ctx, all []kase, nativeSample int) error {
 	hist := map[string]int{}
 	for i, b := range bads {
 		k := b.k
-		if k == nil {
+		if k == nil || (b.skip && !dump) {
 			continue
 		}
 		pk, ms := k.files()
